@@ -157,16 +157,24 @@ fn inner(c: &TimeoutCase) -> Result<CaseReport, Stop> {
                 drop(c);
             });
             let intr = plan_eintr(c.eintr, d);
+            sc::verif::log_begin();
             let t0 = Instant::now();
             let r = no_panic(opname, || match &mut b.l {
                 TinyListener::U(l) => UnixListener::accept_with_timeout(l, d).map(|_s| true),
                 TinyListener::T(l) => l.accept_with_timeout(d).map(|_s| true),
             });
             let el = t0.elapsed();
+            let call_log = sc::verif::log_end();
             drop(intr);
             if let Some(wait) = hw.finish() {
                 sc::verif::clear_plan();
                 return Err(stop_fail(format!("{opname}|never-timed-out|blocked in an untimed wait"), format!("{opname}({d:?}) with nobody connecting was still parked in {wait} {el:?} after the call; it came back only when the harness connected")));
+            }
+            // as for the read below: a connection the kernel's accept itself handed out was made by somebody
+            // (a foreign client on this port); only a completion without one is the call's own doing
+            if matches!(&r, Ok(Ok(_))) && call_log.iter().any(|k| (k.nr == sc::nr::ACCEPT4 || k.nr == sc::nr::ACCEPT) && k.executed && (k.ret as isize) >= 0) {
+                sc::verif::clear_plan();
+                return Err(Stop::Inconclusive(format!("{opname}: accept(2) itself returned a connection although this case connects nobody: a foreign client")));
             }
             let first = r?;
             if c.again != 0 && matches!(&first, Err(e) if ek(e) == EK::Timeout) && el >= d {
@@ -329,12 +337,28 @@ fn inner(c: &TimeoutCase) -> Result<CaseReport, Stop> {
                 unsafe { libc::write(pfd, b"!".as_ptr().cast(), 1) };
             });
             let intr = plan_eintr(c.eintr, d);
+            sc::verif::log_begin();
             let t0 = Instant::now();
-            let r = no_panic(opname, || s.read_with_timeout(&mut buf, d).map(|_n| true));
+            let r = no_panic(opname, || s.read_with_timeout(&mut buf, d));
             let el = t0.elapsed();
+            let call_log = sc::verif::log_end();
             drop(intr);
             returned.store(true, std::sync::atomic::Ordering::SeqCst);
             let _ = wd.join();
+            // A completed read is judged by where its result came from. The peer of this case never writes and
+            // keeps its end open. If read(2) itself returned that count, the kernel delivered bytes (or an end of
+            // file) that somebody else put on this connection - a foreign client on the listener's port, a stray
+            // write - and the call did what it must: nothing to judge. A completed call WITHOUT such a read(2)
+            // result (a timeout turned into Ok, a count made up) is the violation.
+            if let Ok(Ok(n)) = &r {
+                let from_kernel = call_log.iter().rev().find(|k| k.nr == sc::nr::READ && k.executed).map(|k| k.ret as isize);
+                if !stuck.load(std::sync::atomic::Ordering::SeqCst) && from_kernel == Some(*n as isize) {
+                    sc::verif::clear_plan();
+                    return Err(Stop::Inconclusive(format!("{opname}: read(2) itself returned {n} on a connection whose peer (of this case) never wrote: somebody else acted on it")));
+                }
+            }
+            rep.class_if(call_log.iter().any(|k| k.nr == sc::nr::READ), "timed-read-with-its-system-calls-recorded");
+            let r = r.map(|x| x.map(|_n| true));
             if c.again != 0 && !stuck.load(std::sync::atomic::Ordering::SeqCst) && matches!(&r, Ok(Err(e)) if ek(e) == EK::Timeout) && el >= d {
                 sc::verif::clear_plan();
                 let origin = ["connect", "accept", "try_accept", "accept_with_timeout"][c.origin.min(3) as usize];
